@@ -6,6 +6,7 @@ CONSTANTS
   Emit = TRUE
   SeqMode = FALSE
 INVARIANT AlgRefinesRef
+INVARIANT AlgRefinesRefOp
 INVARIANT GraphRepresents
 INVARIANT RefLaws
 INVARIANT EmitCase
